@@ -1,8 +1,7 @@
 #!/bin/bash
-# usage: tools/roundN.sh <round-number> <prop-id> <check-ids...> : confirm both mutations of <prop-id> from /tmp/mut<round>/<id>/_out, then run the checks against them
+# usage: tools/roundN.sh <round-number> <prop-id> <check-ids...> : confirm both mutations of <prop-id> from /tmp/mut<round>/<id>/_out, then run the checks against them (each in its own scratch worktree)
 rn=$1; id=$2; shift 2
 for n in 1 2; do
   timeout 1500 python3 /verif/tools/confirm_mut.py $id $n --tag r$rn- --src /tmp/mut$rn/$id/_out > /tmp/cm-$id-r$rn-$n.log 2>&1; echo "confirm $id r$rn-$n rc=$?"
-  echo "#### $id r$rn-mut$n"; LINES_MAX=8 timeout 1500 /verif/tools/trymut.sh /tmp/mut$rn/$id/_out/mut$n.diff "$@" 2>&1 | grep -v "^KNOWN" | cut -c1-260
-  git -C /repo checkout -- . 2>/dev/null
+  echo "#### $id r$rn-mut$n"; LINES_MAX=8 timeout 1800 /verif/tools/trymut_wt.sh /tmp/mut$rn/$id/_out/mut$n.diff "$@" 2>&1 | grep -v "^KNOWN" | cut -c1-260
 done
